@@ -1,5 +1,5 @@
 (** C18 — sorting and container libraries conform to their abstract data types: property theorems only. *)
-From ChibiV Require Import C18.Spec C18.Model C18.Proofs C18.Proofs2 C18.Oracle C18.OracleProofs C18.SpecCont C18.ContProofs.
+From ChibiV Require Import C18.Spec C18.Model C18.Proofs C18.Proofs2 C18.Oracle C18.OracleProofs C18.SpecCont C18.ContProofs C18.ISet C18.ISetProofs C18.ISetTie Gen.C18_ISetGuards.
 
 (** the merge step of both C merge sorts is a stable merge (ties: left run first) *)
 Theorem merge_stable : forall (A : Type) (lt : A -> A -> bool), strict_weak_order lt ->
@@ -136,3 +136,62 @@ Proof.
   intro added. apply (proj2 (fifo l added)).
 Qed.
 Print Assumptions seq_oracle_laws.
+
+(** (chibi iset) inside the model.  (G) the guards regenerated from lib/chibi/iset/constructors.scm on every run
+    (Gen/C18_ISetGuards.v) are the model's guards: an edit of bits-thresh / range->bits /
+    iset-should-merge-left? / iset-should-merge-right? re-opens the proofs below *)
+Theorem iset_guards_regenerated_equal_model :
+  gen_bits_thresh = bits_thresh /\
+  (forall s e, gen_range_bits s e = range_bits s e) /\
+  (forall a b, gen_should_merge_left a b = should_merge_left a b) /\
+  (forall a b, gen_should_merge_right a b = should_merge_right a b).
+Proof. exact iset_guards_tied. Qed.
+Print Assumptions iset_guards_regenerated_equal_model.
+
+(** the node invariant [wf] (start <= end, bitmap inside [start,end], left subtree entirely below start, right
+    subtree entirely above end) holds of the empty iset and is kept by iset-adjoin-node! (every clause, including
+    the node-split general case) for any well-formed node b; the result contains exactly b's elements and a's *)
+Theorem iset_adjoin_node_keeps_invariant_and_adds_exactly_b : forall a b, wf a -> a <> Nil -> b <> Nil -> node_ok b ->
+  (wf (adjoin_node a b) /\ adjoin_node a b <> Nil) /\
+  forall m, contains (adjoin_node a b) m = contains (copy_node b) m || contains a m.
+Proof. intros a b Ha Hn Hb Hok. split; [exact (adjoin_node_wf a b Ha Hn Hb Hok) | intro m; exact (adjoin_node_contains a b m Ha Hn Hb Hok)]. Qed.
+Print Assumptions iset_adjoin_node_keeps_invariant_and_adds_exactly_b.
+
+(** iset-adjoin1! / iset-adjoin refine the set oracle: invariant kept, listing = set_adjoin of the listing *)
+Theorem iset_adjoin_refines_set : forall t n, wf t -> t <> Nil ->
+  (wf (adjoin1 t n) /\ adjoin1 t n <> Nil) /\
+  (forall m, contains (adjoin1 t n) m = (m =? n)%Z || contains t m) /\
+  to_list (adjoin1 t n) = set_adjoin n (to_list t).
+Proof. intros t n H Hn. split; [exact (adjoin1_wf t n H Hn) | split; [intro m; exact (adjoin1_contains t n m H Hn) | exact (adjoin1_to_list t n H Hn)]]. Qed.
+Print Assumptions iset_adjoin_refines_set.
+
+(** iset-delete1! / iset-delete (range split, bit clear, emptied nodes) refine the set oracle *)
+Theorem iset_delete_refines_set : forall t n, wf t ->
+  wf (delete1 t n) /\
+  (forall m, contains (delete1 t n) m = negb (m =? n)%Z && contains t m) /\
+  to_list (delete1 t n) = set_delete n (to_list t).
+Proof. intros t n H. split; [exact (delete1_wf t n H) | split; [intro m; exact (delete1_contains t n m H) | exact (delete1_to_list t n H)]]. Qed.
+Print Assumptions iset_delete_refines_set.
+
+(** iset-union2! (fold of iset-adjoin-node! over the nodes of b) refines set union *)
+Theorem iset_union_refines_set : forall a b, wf a -> a <> Nil -> wf b ->
+  (wf (union2 a b) /\ union2 a b <> Nil) /\
+  (forall m, contains (union2 a b) m = contains a m || contains b m) /\
+  to_list (union2 a b) = set_union (to_list a) (to_list b).
+Proof. intros a b Ha Hn Hb. split; [exact (union2_wf a b Ha Hn Hb) | split; [intro m; exact (union2_contains a b m Ha Hn Hb) | exact (union2_to_list a b Ha Hn Hb)]]. Qed.
+Print Assumptions iset_union_refines_set.
+
+(** iset->list is strictly increasing and lists exactly what iset-contains? accepts; iset-size is its length *)
+Theorem iset_listing_sorted_and_exact : forall t, wf t ->
+  (StronglySorted Z.lt (to_list t) /\ forall m, In m (to_list t) <-> contains t m = true) /\
+  (forall m, contains t m = set_mem m (to_list t)) /\
+  iset_size t = Z.of_nat (length (to_list t)).
+Proof. intros t H. split; [exact (to_list_spec t H) | split; [intro m; exact (contains_set_mem t m H) | exact (size_spec t H)]]. Qed.
+Print Assumptions iset_listing_sorted_and_exact.
+
+(** the recursive call of the general case of iset-adjoin-node! on a itself only reaches the non-recursive clauses,
+    which is how coq/C18/ISet.v writes it (adjoin_node_top) *)
+Theorem iset_adjoin_node_inner_call_is_top : forall a b, a <> Nil -> (t_start b <= t_end b)%Z ->
+  is_empty a = true \/ (t_start a <= t_start b /\ t_end b <= t_end a)%Z -> adjoin_node a b = adjoin_node_top a b.
+Proof. exact adjoin_node_top_eq. Qed.
+Print Assumptions iset_adjoin_node_inner_call_is_top.
